@@ -12,9 +12,17 @@ Strings are written `x<hex of the UTF-8 bytes>` (so `x` is the empty string).
   cond <tmin> <tmax> <cond…>      → groups <gid>=<sid,sid…> …          | err panic
 cond (prefix): `N` (nil) | `E <k> <v>` | `O` | `& x y` | `| x y` | `P x`.
 
+Batches (OG.C11.Batch) are answered against a second catalogue, built by:
+  cat <key,key…:h|r | ->                  database-level shard key; resets the catalogue   → ok
+  cmst <origin> <name> <init 0|1> <tag,tag…|-> <key,key…|->/<h|r>/<sg>;… <gid=i,i…;…|->     → ok
+  cgroup … (as `group`)                                                                     → ok
+  batch <mst>:<o|e|b|s>:<t>:<k=v+k=v…|-> …
+        → batch <gid/sid/key | -> … | dropped=<n> last=<kind|-> abort=<kind|->
+
 `hash` is instantiated with xxhash64 (seed 0), as `meta.HashID`.
 -/
 import OG.C11.Model
+import OG.C11.Batch
 
 namespace OG.C11
 
@@ -167,6 +175,105 @@ def showConsulted : List (Group × Option (List Shard)) → Option String
 
 def emptyMeta : Meta := ⟨"", [], false, [], []⟩
 
+/-! ### batches -/
+
+def parseSKI (tok : String) : Option SKI :=
+  match tok.splitOn "/" with
+  | [ks, ty, sg] => do
+    let k ← parseList parseStr "," ks
+    if ty == "h" || ty == "r" then some ⟨k, ty == "r", ← sg.toNat?⟩ else none
+  | _ => none
+
+def parseDbKey (tok : String) : Option (Option SKI) :=
+  if tok == "-" then some none
+  else match tok.splitOn ":" with
+    | [ks, ty] => do
+      let k ← parseList parseStr "," ks
+      if ty == "h" || ty == "r" then some (some ⟨k, ty == "r", 0⟩) else none
+    | _ => none
+
+def parseIdx (tok : String) : Option (Nat × List Nat) :=
+  match tok.splitOn "=" with
+  | [g, l] => do some (← g.toNat?, ← parseList String.toNat? "," l)
+  | _ => none
+
+def parsePre : String → Option Pre
+  | "o" => some .ok
+  | "e" => some .early
+  | "b" => some .badMst
+  | "s" => some .schemaDrop
+  | _ => none
+
+def parseRow (tok : String) : Option Row :=
+  match tok.splitOn ":" with
+  | [m, pre, t, tags] => do
+    some ⟨← parseStr m, ← parsePre pre, ⟨← t.toInt?, ← parseList parseTag "+" tags⟩⟩
+  | _ => none
+
+def showDrop : DropKind → String
+  | .early => "early"
+  | .badMst => "bad-measurement"
+  | .schema => "schema"
+  | .missingShardKey => "missing-shard-key"
+  | .keyTooLarge => "key-too-large"
+
+def showAbort : AbortKind → String
+  | .noMst => "no-measurement"
+  | .noGroup => "no-group"
+  | .noShardKey => "no-shard-key"
+  | .unmarshal .duplicateTag => "duplicate-tag"
+  | .unmarshal _ => "unmarshal"
+  | .map2shard => "map2shard"
+  | .panic => "panic"
+
+/-- one token per row of the batch (rows after an abort: `-`), then the counters. -/
+def showBatch (n : Nat) (outs : List (Row × Step)) : String :=
+  let toks := outs.map fun (_, o) => match o with
+    | .routed r => toString r.group.ID ++ "/" ++ toString r.shard.ID ++ "/" ++ showStr r.key
+    | _ => "-"
+  let pad := List.replicate (n - outs.length) "-"
+  let drops := outs.filterMap fun (_, o) => match o with | .dropped k => some k | _ => none
+  let ab := match outs.getLast? with | some (_, .abort k) => showAbort k | _ => "-"
+  -- `return nil, dropped, err`: an abort does not report the partial error
+  let last := if ab != "-" then "-" else match drops.getLast? with | some k => showDrop k | none => "-"
+  "batch " ++ " ".intercalate (toks ++ pad) ++ " | dropped=" ++ toString drops.length ++
+    " last=" ++ last ++ " abort=" ++ ab
+
+def emptyCat : Catalogue := ⟨none, [], []⟩
+
+structure DState where
+  M : Meta
+  C : Catalogue
+
+def stepC (C : Catalogue) (toks : List String) : Option (Catalogue × String) :=
+  match toks with
+  | ["cat", dbk] => do
+    let k ← parseDbKey dbk
+    some (⟨k, [], []⟩, "ok")
+  | ["cmst", origin, name, init, tags, skis, idx] => do
+    let o ← parseStr origin
+    let n ← parseStr name
+    let t ← parseList parseStr "," tags
+    let ks ← parseList parseSKI ";" skis
+    let ix ← parseList parseIdx ";" idx
+    if init == "0" || init == "1" then
+      some ({ C with msts := C.msts ++ [⟨o, n, ks, t, init == "1", ix⟩] }, "ok")
+    else none
+  | ["cgroup", id, st, en, del, tr, alive, _mi, shards] => do
+    let trunc : Option Int ← if tr == "-" then some none else tr.toInt?.map some
+    let id ← id.toNat?
+    let st ← st.toInt?
+    let en ← en.toInt?
+    let al ← parseList String.toNat? "," alive
+    let sh ← parseList parseShard ";" shards
+    if del == "0" || del == "1" then
+      some ({ C with groups := C.groups ++ [⟨id, st, en, del == "1", trunc, sh, al, none⟩] }, "ok")
+    else none
+  | "batch" :: rows => do
+    let rs ← rows.mapM parseRow
+    some (C, showBatch rs.length (routeBatch true true hashID C rs))
+  | _ => none
+
 def step (M : Meta) (line : String) : Meta × String :=
   match (line.trimAscii.toString.splitOn " ").filter (· ≠ "") with
   | ["meta", name, ty, key, tags] =>
@@ -207,15 +314,27 @@ def step (M : Meta) (line : String) : Meta × String :=
     | _, _, _ => (M, "bad-op")
   | _ => (M, "bad-op")
 
-partial def loop (h : IO.FS.Stream) (out : IO.FS.Stream) (M : Meta) : IO Unit := do
+def isCatOp (line : String) : Bool :=
+  line.startsWith "cat " || line.startsWith "cmst " || line.startsWith "cgroup " || line.startsWith "batch"
+
+partial def loop (h : IO.FS.Stream) (out : IO.FS.Stream) (s : DState) : IO Unit := do
   let line ← h.getLine
   if line.isEmpty then return ()
-  let (M', ans) := step M line
-  out.putStrLn ans
-  loop h out M'
+  if isCatOp line then
+    match stepC s.C ((line.trimAscii.toString.splitOn " ").filter (· ≠ "")) with
+    | some (C', ans) =>
+      out.putStrLn ans
+      loop h out { s with C := C' }
+    | none =>
+      out.putStrLn "bad-op"
+      loop h out s
+  else
+    let (M', ans) := step s.M line
+    out.putStrLn ans
+    loop h out { s with M := M' }
 
 def main : IO Unit := do
-  loop (← IO.getStdin) (← IO.getStdout) emptyMeta
+  loop (← IO.getStdin) (← IO.getStdout) ⟨emptyMeta, emptyCat⟩
 
 end OG.C11
 
